@@ -104,7 +104,14 @@ func (u *udpHandler) Handle() error {
 		}
 		pkg := make([]byte, n)
 		copy(pkg, buffer[0:n])
-		u.handleUDPAddr(udpAddr, pkg)
+		// a datagram has to carry one complete package; anything else (e.g. fewer bytes
+		// than the length prefix itself) must not reach the protocol layer
+		pkgLen, status := u.server.protocol.ParsePackage(pkg)
+		if status != PackageFull {
+			TLOG.Errorf("drop malformed udp package of %d bytes from %v", n, udpAddr)
+			continue
+		}
+		u.handleUDPAddr(udpAddr, pkg[:pkgLen])
 	}
 }
 
